@@ -60,6 +60,8 @@ type c11Transport struct {
 	body       func() io.Reader
 	setRequest bool
 	err        error
+	// next, if set, answers every request after the first one
+	next *c11Transport
 }
 
 func (t *c11Transport) RoundTrip(req *http.Request) (*http.Response, error) {
@@ -69,6 +71,9 @@ func (t *c11Transport) RoundTrip(req *http.Request) (*http.Response, error) {
 		req.Body.Close()
 	}
 	t.reqs = append(t.reqs, q)
+	if len(t.reqs) > 1 && t.next != nil {
+		t = t.next
+	}
 	if t.err != nil {
 		return nil, t.err
 	}
@@ -760,6 +765,65 @@ func TestVerifEnumC11Client(t *testing.T) {
 						}
 						delivered := mode != rdErrAtEnd && mode != rdErrMidway
 						c11JudgeResult(r, "amp", status, len(doc.doc), delivered, false, doc.payload, data, err, input)
+					}
+				}
+			}
+		}
+	}
+
+	// ---- 3b. redirects: a 3xx answer with a Location, and a 200 waiting at the target -----------------
+	if r.Shard0() {
+		r.Begin("redirects", "both rendezvous methods: first answer 301/302/303/307/308 with Location {other host, same host other path, the same URL}, every later request answered 200 with a valid body, x front {none, front.example}: Exchange must report an error (non-200 status); if the rendezvous sends further requests on its own, each of them must still connect to the front and name the broker only in the Host header")
+		for _, method := range []string{"http", "amp", "amp-cache"} {
+			for _, status := range []int{301, 302, 303, 307, 308} {
+				for _, loc := range []string{"https://elsewhere.example/x", "/other/path", "https://broker.example/"} {
+					for _, front := range []string{"", "front.example"} {
+						okResp := okBody
+						if method != "http" {
+							okResp = c11RealArmor(okBody)
+						}
+						rt := &c11Transport{status: status, header: http.Header{"Location": {loc}}, body: func() io.Reader { return bytes.NewReader([]byte("moved")) },
+							next: &c11Transport{status: 200, body: func() io.Reader { return bytes.NewReader(okResp) }}}
+						var data []byte
+						var err error
+						input := map[string]interface{}{"method": method, "first_status": status, "location": loc, "front": front}
+						p, val, stack := en.Try(func() {
+							var x RendezvousMethod
+							var e error
+							switch method {
+							case "http":
+								x, e = newHTTPRendezvous("https://broker.example/", front, rt)
+							case "amp":
+								x, e = newAMPCacheRendezvous("https://broker.example/", "", front, rt)
+							default:
+								x, e = newAMPCacheRendezvous("https://broker.example/", "https://cdn.ampproject.org/", front, rt)
+							}
+							if e != nil {
+								err = e
+								return
+							}
+							data, err = x.Exchange(polls[0])
+						})
+						r.Case(fmt.Sprintf("redir|%s|%d|%s|%s", method, status, loc, front), true)
+						if p {
+							r.Fail("limits:panic@"+en.PanicSite(stack), "Exchange panicked: "+val+" "+stack, input)
+							continue
+						}
+						m := "http"
+						if method != "http" {
+							m = "amp"
+						}
+						if err == nil {
+							r.Fail(m+":non-200-accepted", fmt.Sprintf("first answer %d with Location %q: Exchange returned %d bytes and a nil error after %d request(s)", status, loc, len(data), len(rt.reqs)), input)
+						}
+						if front != "" {
+							for i, q := range rt.reqs[1:] {
+								if q.URLHost != front {
+									r.Fail("fronting:not-connecting-to-front", fmt.Sprintf("after a %d answer the rendezvous sent request %d to %q instead of the front %q", status, i+2, q.URLHost, front), input)
+									break
+								}
+							}
+						}
 					}
 				}
 			}
